@@ -1,13 +1,13 @@
-\* requests handled one at a time: I refines P; three-level chain, custom costs {1,2}
+\* requests handled one at a time: I refines P; parent with two children (one window each)
 CONSTANTS
-  Quota = {"r", "m", "l"}
-  Parent <- dParent
-  Max <- dMax
-  W <- dW
-  Grouped <- dGrouped
+  Quota = {"p", "c1", "c2"}
+  Parent <- cParent
+  Max <- cMax
+  W <- cW
+  Grouped <- cGrouped
   Group = {"default"}
   Gran = 2
-  Costs = {1, 2}
+  Costs = {1}
   Steps = {1, 2, 3}
   MaxNow = 9
   Ids = {"x"}
